@@ -281,6 +281,47 @@ func ruleR3UnifySeed(c *Ctx) []Obligation {
 				ob.Detail = "seeded " + strings.Join(oks, "; ")
 			}
 			out = append(out, ob)
+			// direction of the check: the alternative is the value that is offered (got), the accumulator the type it must
+			// fit (expected). TypeCheck is not symmetric (an `any` is accepted only on one side, diagnostics name the
+			// operands by role): every unifier agrees on this order
+			{
+				var swapped, okCalls []string
+				ast.Inspect(scope, func(m ast.Node) bool {
+					call, ok := m.(*ast.CallExpr)
+					if !ok || CalleeOf(info, call) != e.roles.typeCheck || len(call.Args) < 2 {
+						return true
+					}
+					mentionsAcc := func(x ast.Expr) bool {
+						hit := false
+						ast.Inspect(x, func(y ast.Node) bool {
+							if id, ok := y.(*ast.Ident); ok && info.Uses[id] == acc {
+								hit = true
+							}
+							return !hit
+						})
+						return hit
+					}
+					a0, a1 := mentionsAcc(call.Args[0]), mentionsAcc(call.Args[1])
+					e0, e1 := r2sibMentions(info, call.Args[0], elemVars), r2sibMentions(info, call.Args[1], elemVars)
+					switch {
+					case a1 && e0 && !a0:
+						okCalls = append(okCalls, c.Pos(call.Pos()))
+					case a0 && e1 && !a1:
+						swapped = append(swapped, fmt.Sprintf("TypeCheck(%s, %s) at %s", exprStr(call.Args[0]), exprStr(call.Args[1]), c.Pos(call.Pos())))
+					}
+					return true
+				})
+				if len(swapped)+len(okCalls) > 0 {
+					dob := Obligation{Key: key + "|accumulator is the expected operand", Pos: c.Pos(seeds[0].Pos()), Nontrivial: true}
+					if len(swapped) > 0 {
+						dob.Status = Violated
+						dob.Detail = strings.Join(swapped, "; ") + ": the accumulator is passed as the value that is offered and the alternative as the type it must fit — the reverse of every other unifier; where `any` is involved (TypeCheck accepts an expected any, rejects an offered one outside let / cast) the wrong mixes of alternatives are accepted and rejected"
+					} else {
+						dob.Detail = "TypeCheck(<alternative>, <accumulator>) at " + strings.Join(okCalls, ", ")
+					}
+					out = append(out, dob)
+				}
+			}
 			for i, dfd := range declFds {
 				k := key
 				if len(declFds) > 1 {
